@@ -74,6 +74,10 @@ EXTRA = [
     # operators in GROUP BY / ORDER BY keys of a query without WHERE
     'count(*) from . group by size % 2', 'size * 2 , count(*) from . group by size * 2 order by 1', 'name from . order by size + 1 , name',
     'count(*) from sub group by size > 3', 'name from . order by size = 4 , name limit 5', 'name from sub order by size mod 3 desc , name',
+    # a sign written as its own token (and so as a word), negated operators outside WHERE, count with blanks in its bracket
+    'name from . where 0 - size < - 2', 'name from . order by - size , name limit 3', 'name , abs( - 5 ) from . limit 2', 'size , abs( + size ) from . limit 2',
+    'name from . order by name notlike %t desc , name', 'name , name notlike a% from . order by name', 'count(*) from . group by name notrx t order by 1',
+    'name from . order by size != 4 , name limit 5',
     # root options of the default root (no FROM), the first option in every spelling
     'name symlinks', 'name , size archives', 'name gitignore depth 2', 'name hgignore', 'name dockerignore dfs', 'name depth 2', 'name mindepth 1 maxdepth 2',
     'name dfs', 'name nogitignore symlinks', 'name , size symlinks where size > 1 order by 1',
